@@ -1,1 +1,1023 @@
-// filled in later
+//! Reference semantics for the format-free fragment of beff's type IR (C05, C06, C07).
+//!
+//! It interprets the *data* of the engine (Runtype trees; SemType bitsets, allow/deny lists, decision
+//! diagrams and atom tables) over concrete finite values and shares none of the engine's
+//! *algorithms* (no emptiness check, no DNF, no memo tables).
+//!
+//! Values: JSON-like trees plus `Absent` (a property position that carries nothing; the engine's
+//! OptionalProp / undefined) and `Tag(bit)` pseudo values for tags that are plain bits (bigint, Date).
+//!
+//! Two readings of a type, as in the statement of C05:
+//!  * **Open** (`rt_open`): structural; an object may carry properties the type does not mention.
+//!  * **Exact** (`rt_exact`): the value is Open-member and, at every object position, carries only
+//!    properties that at least one conjunct of the type declares there (explicitly or through an index
+//!    signature). For an intersection this is the merged-record reading.
+use beff_core::ast::json::N;
+use beff_core::ast::runtype::{Runtype, RuntypeConst, RuntypeKind, TplLitType, TplLitTypeItem};
+use beff_core::subtyping::bdd::{Atom, Bdd, ListAtomic, MappingAtomicType};
+use beff_core::subtyping::semtype::{SemType, SemTypeContext};
+use beff_core::subtyping::subtype::{NumberRepresentationOrFormat, ProperSubtype, StringLitOrFormat, SubTypeTag, VoidUndefinedSubtype};
+use beff_core::RuntypeUUID;
+use std::collections::{BTreeMap, BTreeSet};
+use std::rc::Rc;
+
+#[derive(Clone, Debug, PartialEq, Eq, PartialOrd, Ord, Hash)]
+pub enum Value {
+    Absent,
+    Null,
+    Bool(bool),
+    Num(i64),
+    Str(String),
+    Arr(Vec<Value>),
+    Obj(BTreeMap<String, Value>),
+    Tag(u32),
+}
+
+impl Value {
+    pub fn show(&self) -> String {
+        match self {
+            Value::Absent => "<absent>".into(),
+            Value::Null => "null".into(),
+            Value::Bool(b) => b.to_string(),
+            Value::Num(n) => n.to_string(),
+            Value::Str(s) => format!("{:?}", s),
+            Value::Arr(a) => format!("[{}]", a.iter().map(|x| x.show()).collect::<Vec<_>>().join(", ")),
+            Value::Obj(o) => format!("{{{}}}", o.iter().map(|(k, v)| format!("{:?}: {}", k, v.show())).collect::<Vec<_>>().join(", ")),
+            Value::Tag(t) => format!("<tag {}>", t),
+        }
+    }
+    pub fn depth(&self) -> usize {
+        match self {
+            Value::Arr(a) => 1 + a.iter().map(|x| x.depth()).max().unwrap_or(0),
+            Value::Obj(o) => 1 + o.values().map(|x| x.depth()).max().unwrap_or(0),
+            _ => 0,
+        }
+    }
+}
+
+pub type Defs = BTreeMap<RuntypeUUID, Runtype>;
+
+#[derive(Debug, Clone)]
+pub struct Unsupported(pub String);
+pub type R<T> = Result<T, Unsupported>;
+
+fn unsup<T>(what: &str) -> R<T> {
+    Err(Unsupported(what.to_string()))
+}
+
+pub fn single_const(t: &TplLitType) -> Option<&str> {
+    match t.0.as_slice() {
+        [TplLitTypeItem::StringConst(s)] => Some(s),
+        _ => None,
+    }
+}
+
+fn lookup<'a>(defs: &'a Defs, n: &RuntypeUUID) -> R<&'a Runtype> {
+    defs.get(n).ok_or_else(|| Unsupported(format!("dangling-ref:{:?}", n.ty)))
+}
+
+/// the finite set of keys an index signature requires (the engine's `is_finite_string_set` reading):
+/// Some(keys) for a union of string literals, None for `string` and other infinite key types
+pub fn finite_keys(k: &Runtype, defs: &Defs) -> R<Option<Vec<String>>> {
+    match &k.kind {
+        RuntypeKind::TplLitType(t) => match single_const(t) {
+            Some(s) => Ok(Some(vec![s.to_string()])),
+            None => Ok(None),
+        },
+        RuntypeKind::AnyOf(ms) => {
+            let mut out = vec![];
+            for m in ms {
+                match finite_keys(m, defs)? {
+                    Some(ks) => out.extend(ks),
+                    None => return Ok(None),
+                }
+            }
+            Ok(Some(out))
+        }
+        RuntypeKind::Ref(n) => finite_keys(lookup(defs, n)?, defs),
+        RuntypeKind::Never => Ok(Some(vec![])),
+        _ => Ok(None),
+    }
+}
+
+// ------------------------------------------------------------------------------------------------
+// Open reading of a Runtype
+pub fn rt_open(t: &Runtype, defs: &Defs, v: &Value) -> R<bool> {
+    Ok(match &t.kind {
+        RuntypeKind::Null => *v == Value::Null,
+        RuntypeKind::Undefined | RuntypeKind::Void => *v == Value::Absent,
+        RuntypeKind::Boolean => matches!(v, Value::Bool(_)),
+        RuntypeKind::String => matches!(v, Value::Str(_)),
+        RuntypeKind::Number => matches!(v, Value::Num(_)),
+        RuntypeKind::Any => true,
+        RuntypeKind::AnyArrayLike => matches!(v, Value::Arr(_)),
+        RuntypeKind::BigInt => *v == Value::Tag(SubTypeTag::BigInt.code()),
+        RuntypeKind::Date => *v == Value::Tag(SubTypeTag::Date.code()),
+        RuntypeKind::TplLitType(tpl) => match single_const(tpl) {
+            Some(s) => matches!(v, Value::Str(x) if x == s),
+            None => return unsup("template"),
+        },
+        RuntypeKind::Const(RuntypeConst::Bool(b)) => *v == Value::Bool(*b),
+        RuntypeKind::Const(RuntypeConst::Number(n)) => matches!(v, Value::Num(x) if N::parse_int(*x) == *n),
+        RuntypeKind::Never => false,
+        RuntypeKind::StNot(x) => !rt_open(x, defs, v)?,
+        RuntypeKind::Ref(n) => rt_open(lookup(defs, n)?, defs, v)?,
+        RuntypeKind::AnyOf(ms) => {
+            for m in ms {
+                if rt_open(m, defs, v)? {
+                    return Ok(true);
+                }
+            }
+            false
+        }
+        RuntypeKind::AllOf(ms) => {
+            for m in ms {
+                if !rt_open(m, defs, v)? {
+                    return Ok(false);
+                }
+            }
+            true
+        }
+        RuntypeKind::Array(e) => match v {
+            Value::Arr(a) => {
+                for x in a {
+                    if !rt_open(e, defs, x)? {
+                        return Ok(false);
+                    }
+                }
+                true
+            }
+            _ => false,
+        },
+        RuntypeKind::Tuple { prefix_items, items } => match v {
+            Value::Arr(a) => {
+                if a.len() < prefix_items.len() || (items.is_none() && a.len() != prefix_items.len()) {
+                    return Ok(false);
+                }
+                for (i, x) in a.iter().enumerate() {
+                    let ty = if i < prefix_items.len() { &prefix_items[i] } else { items.as_ref().unwrap() };
+                    if !rt_open(ty, defs, x)? {
+                        return Ok(false);
+                    }
+                }
+                true
+            }
+            _ => false,
+        },
+        RuntypeKind::Object { vs, indexed_properties } => match v {
+            Value::Obj(o) => {
+                for (k, ot) in vs {
+                    let val = o.get(k).unwrap_or(&Value::Absent);
+                    if *val == Value::Absent && !ot.is_required() {
+                        continue;
+                    }
+                    if !rt_open(ot.inner(), defs, val)? {
+                        return Ok(false);
+                    }
+                }
+                if let Some(ip) = indexed_properties {
+                    match finite_keys(&ip.key, defs)? {
+                        Some(keys) => {
+                            for k in keys {
+                                if vs.contains_key(&k) {
+                                    continue;
+                                }
+                                let val = o.get(&k).unwrap_or(&Value::Absent);
+                                if *val == Value::Absent && !ip.value.is_required() {
+                                    continue;
+                                }
+                                if !rt_open(ip.value.inner(), defs, val)? {
+                                    return Ok(false);
+                                }
+                            }
+                        }
+                        None => {
+                            for (k, val) in o {
+                                if vs.contains_key(k) {
+                                    continue;
+                                }
+                                if rt_open(&ip.key, defs, &Value::Str(k.clone()))? && !rt_open(ip.value.inner(), defs, val)? {
+                                    return Ok(false);
+                                }
+                            }
+                        }
+                    }
+                }
+                true
+            }
+            _ => false,
+        },
+        other => return unsup(&format!("kind:{}", kind_name(other))),
+    })
+}
+
+pub fn kind_name(k: &RuntypeKind) -> &'static str {
+    match k {
+        RuntypeKind::Null => "null",
+        RuntypeKind::Undefined => "undefined",
+        RuntypeKind::Void => "void",
+        RuntypeKind::Boolean => "boolean",
+        RuntypeKind::String => "string",
+        RuntypeKind::Number => "number",
+        RuntypeKind::Any => "any",
+        RuntypeKind::AnyArrayLike => "anyarray",
+        RuntypeKind::StringWithFormat(_) => "stringformat",
+        RuntypeKind::NumberWithFormat(_) => "numberformat",
+        RuntypeKind::TplLitType(_) => "tpl",
+        RuntypeKind::Object { .. } => "object",
+        RuntypeKind::Array(_) => "array",
+        RuntypeKind::Tuple { .. } => "tuple",
+        RuntypeKind::Ref(_) => "ref",
+        RuntypeKind::AnyOf(_) => "anyof",
+        RuntypeKind::AllOf(_) => "allof",
+        RuntypeKind::Const(_) => "const",
+        RuntypeKind::Never => "never",
+        RuntypeKind::StNot(_) => "not",
+        RuntypeKind::Function => "function",
+        RuntypeKind::Date => "date",
+        RuntypeKind::BigInt => "bigint",
+        RuntypeKind::TypedArray(_) => "typedarray",
+        RuntypeKind::Map(_, _) => "map",
+        RuntypeKind::Set(_) => "set",
+    }
+}
+
+// ------------------------------------------------------------------------------------------------
+// Exact reading: a conjunction of types is expanded (unions branch, intersections flatten, names
+// unfold) until only atoms remain; atoms are then read position by position.
+
+/// expands the first non-atomic conjunct; calls `f` on every fully atomic conjunction until it says true
+fn expand<'a>(conj: Vec<&'a Runtype>, defs: &'a Defs, fuel: usize, f: &mut dyn FnMut(&[&'a Runtype]) -> R<bool>) -> R<bool> {
+    if fuel == 0 {
+        return unsup("expansion-fuel");
+    }
+    for (i, t) in conj.iter().enumerate() {
+        match &t.kind {
+            RuntypeKind::AnyOf(ms) => {
+                for m in ms {
+                    let mut c = conj.clone();
+                    c[i] = m;
+                    if expand(c, defs, fuel - 1, f)? {
+                        return Ok(true);
+                    }
+                }
+                return Ok(false);
+            }
+            RuntypeKind::AllOf(ms) => {
+                let mut c = conj.clone();
+                c.remove(i);
+                for m in ms {
+                    c.push(m);
+                }
+                return expand(c, defs, fuel - 1, f);
+            }
+            RuntypeKind::Ref(n) => {
+                let mut c = conj.clone();
+                c[i] = lookup(defs, n)?;
+                return expand(c, defs, fuel - 1, f);
+            }
+            _ => {}
+        }
+    }
+    f(&conj)
+}
+
+/// what an object atom declares for key k: None = nothing (not mentioned), Some((type, optional))
+fn declared<'a>(atom: &'a Runtype, defs: &Defs, k: &str) -> R<Option<(&'a Runtype, bool)>> {
+    if let RuntypeKind::Object { vs, indexed_properties } = &atom.kind {
+        if let Some(ot) = vs.get(k) {
+            return Ok(Some((ot.inner(), !ot.is_required())));
+        }
+        if let Some(ip) = indexed_properties {
+            return Ok(match finite_keys(&ip.key, defs)? {
+                Some(keys) => {
+                    if keys.iter().any(|x| x == k) {
+                        Some((ip.value.inner(), !ip.value.is_required()))
+                    } else {
+                        None
+                    }
+                }
+                None => {
+                    if rt_open(&ip.key, defs, &Value::Str(k.to_string()))? {
+                        Some((ip.value.inner(), true))
+                    } else {
+                        None
+                    }
+                }
+            });
+        }
+    }
+    Ok(None)
+}
+
+fn explicit_keys(atom: &Runtype, defs: &Defs) -> R<Vec<String>> {
+    let mut out = vec![];
+    if let RuntypeKind::Object { vs, indexed_properties } = &atom.kind {
+        out.extend(vs.keys().cloned());
+        if let Some(ip) = indexed_properties
+            && let Some(keys) = finite_keys(&ip.key, defs)?
+        {
+            out.extend(keys);
+        }
+    }
+    Ok(out)
+}
+
+fn elem_type<'a>(atom: &'a Runtype, i: usize) -> Option<&'a Runtype> {
+    match &atom.kind {
+        RuntypeKind::Array(e) => Some(e),
+        RuntypeKind::Tuple { prefix_items, items } => {
+            if i < prefix_items.len() {
+                Some(&prefix_items[i])
+            } else {
+                items.as_deref()
+            }
+        }
+        _ => None,
+    }
+}
+
+fn any_ref() -> &'static Runtype {
+    thread_local! {
+        static A: &'static Runtype = Box::leak(Box::new(Runtype::any()));
+    }
+    A.with(|a| *a)
+}
+
+pub fn rt_exact(t: &Runtype, defs: &Defs, v: &Value) -> R<bool> {
+    exact_conj(vec![t], defs, v)
+}
+
+fn exact_conj(conj: Vec<&Runtype>, defs: &Defs, v: &Value) -> R<bool> {
+    expand(conj, defs, 64, &mut |atoms| exact_atoms(atoms, defs, v))
+}
+
+fn exact_atoms(atoms: &[&Runtype], defs: &Defs, v: &Value) -> R<bool> {
+    match v {
+        Value::Obj(o) => {
+            let mut any_atom = false;
+            for a in atoms {
+                match &a.kind {
+                    RuntypeKind::Object { .. } => {}
+                    RuntypeKind::Any => any_atom = true,
+                    RuntypeKind::StNot(_) => return unsup("negation-in-exact-position"),
+                    _ => return Ok(false),
+                }
+            }
+            let mut keys: BTreeSet<String> = o.keys().cloned().collect();
+            for a in atoms {
+                keys.extend(explicit_keys(a, defs)?);
+            }
+            for k in keys {
+                let mut tys: Vec<&Runtype> = vec![];
+                let mut must_be_present = false;
+                for a in atoms {
+                    if let Some((ty, optional)) = declared(a, defs, &k)? {
+                        tys.push(ty);
+                        if !optional {
+                            must_be_present = true;
+                        }
+                    }
+                }
+                match o.get(&k) {
+                    Some(val) => {
+                        if tys.is_empty() {
+                            if any_atom {
+                                continue;
+                            }
+                            return Ok(false); // carries a property nothing declares
+                        }
+                        if !exact_conj(tys, defs, val)? {
+                            return Ok(false);
+                        }
+                    }
+                    None => {
+                        if must_be_present {
+                            // a required property may still admit "nothing" through its type (any)
+                            for ty in &tys {
+                                if !rt_open(ty, defs, &Value::Absent)? {
+                                    return Ok(false);
+                                }
+                            }
+                        }
+                    }
+                }
+            }
+            Ok(true)
+        }
+        Value::Arr(a) => {
+            for at in atoms {
+                match &at.kind {
+                    RuntypeKind::Array(_) | RuntypeKind::AnyArrayLike | RuntypeKind::Any => {}
+                    RuntypeKind::Tuple { prefix_items, items } => {
+                        if a.len() < prefix_items.len() || (items.is_none() && a.len() != prefix_items.len()) {
+                            return Ok(false);
+                        }
+                    }
+                    RuntypeKind::StNot(_) => return unsup("negation-in-exact-position"),
+                    _ => return Ok(false),
+                }
+            }
+            for (i, x) in a.iter().enumerate() {
+                let tys: Vec<&Runtype> = atoms.iter().map(|at| elem_type(at, i).unwrap_or(any_ref())).collect();
+                if !exact_conj(tys, defs, x)? {
+                    return Ok(false);
+                }
+            }
+            Ok(true)
+        }
+        _ => {
+            for a in atoms {
+                if !rt_open(a, defs, v)? {
+                    return Ok(false);
+                }
+            }
+            Ok(true)
+        }
+    }
+}
+
+// ------------------------------------------------------------------------------------------------
+// Witness universe: exact values of a type, one representative per class the pair can distinguish
+
+#[derive(Default, Debug, Clone)]
+pub struct Lits {
+    pub nums: BTreeSet<i64>,
+    pub strs: BTreeSet<String>,
+    pub keys: BTreeSet<String>,
+    pub max_prefix: usize,
+    pub objects: usize,
+    pub lists: usize,
+}
+
+impl Lits {
+    pub fn collect(&mut self, t: &Runtype, defs: &Defs, seen: &mut BTreeSet<RuntypeUUID>) {
+        match &t.kind {
+            RuntypeKind::Const(RuntypeConst::Number(n)) => {
+                self.nums.insert(n.to_f64() as i64);
+            }
+            RuntypeKind::TplLitType(tpl) => {
+                if let Some(s) = single_const(tpl) {
+                    self.strs.insert(s.to_string());
+                }
+            }
+            RuntypeKind::Object { vs, indexed_properties } => {
+                self.objects += 1;
+                for (k, ot) in vs {
+                    self.keys.insert(k.clone());
+                    self.collect(ot.inner(), defs, seen);
+                }
+                if let Some(ip) = indexed_properties {
+                    if let Ok(Some(keys)) = finite_keys(&ip.key, defs) {
+                        self.keys.extend(keys);
+                    }
+                    self.collect(&ip.key, defs, seen);
+                    self.collect(ip.value.inner(), defs, seen);
+                }
+            }
+            RuntypeKind::Array(e) => {
+                self.lists += 1;
+                self.collect(e, defs, seen);
+            }
+            RuntypeKind::Tuple { prefix_items, items } => {
+                self.lists += 1;
+                self.max_prefix = self.max_prefix.max(prefix_items.len());
+                for p in prefix_items {
+                    self.collect(p, defs, seen);
+                }
+                if let Some(i) = items {
+                    self.collect(i, defs, seen);
+                }
+            }
+            RuntypeKind::AnyOf(ms) | RuntypeKind::AllOf(ms) => {
+                for m in ms {
+                    self.collect(m, defs, seen);
+                }
+            }
+            RuntypeKind::StNot(x) => self.collect(x, defs, seen),
+            RuntypeKind::Ref(n) => {
+                if seen.insert(n.clone())
+                    && let Some(d) = defs.get(n)
+                {
+                    self.collect(d, defs, seen);
+                }
+            }
+            _ => {}
+        }
+    }
+}
+
+pub struct Enumerator<'a> {
+    pub defs: &'a Defs,
+    pub lits: &'a Lits,
+    /// fresh extra keys / extra list length beyond the mentioned ones
+    pub fresh: usize,
+    pub cap: usize,
+    /// set when a cap or the unfolding depth cut the enumeration short
+    pub truncated: bool,
+    pub produced: usize,
+}
+
+pub const FRESH_NUM: i64 = 7777;
+pub const FRESH_STR: &str = "\u{1}fresh";
+
+impl<'a> Enumerator<'a> {
+    pub fn new(defs: &'a Defs, lits: &'a Lits, fresh: usize, cap: usize) -> Self {
+        Enumerator { defs, lits, fresh, cap, truncated: false, produced: 0 }
+    }
+
+    /// exact values of the conjunction `conj`; `depth` bounds the unfolding of names
+    pub fn values(&mut self, conj: Vec<&'a Runtype>, depth: usize) -> R<Vec<Value>> {
+        let mut out: Vec<Value> = vec![];
+        let mut seen: std::collections::HashSet<Value> = std::collections::HashSet::new();
+        let mut atomics: Vec<Vec<&'a Runtype>> = vec![];
+        self.expand_all(conj, depth, &mut atomics, 64)?;
+        for atoms in atomics {
+            for v in self.atom_values(&atoms, depth)? {
+                if seen.insert(v.clone()) {
+                    out.push(v);
+                }
+            }
+            if out.len() > self.cap {
+                self.truncated = true;
+                out.truncate(self.cap);
+                break;
+            }
+        }
+        Ok(out)
+    }
+
+    fn expand_all(&mut self, conj: Vec<&'a Runtype>, depth: usize, out: &mut Vec<Vec<&'a Runtype>>, fuel: usize) -> R<()> {
+        if fuel == 0 || out.len() > 256 {
+            self.truncated = true;
+            return Ok(());
+        }
+        for (i, t) in conj.iter().enumerate() {
+            match &t.kind {
+                RuntypeKind::AnyOf(ms) => {
+                    for m in ms {
+                        let mut c = conj.clone();
+                        c[i] = m;
+                        self.expand_all(c, depth, out, fuel - 1)?;
+                    }
+                    return Ok(());
+                }
+                RuntypeKind::AllOf(ms) => {
+                    let mut c = conj.clone();
+                    c.remove(i);
+                    for m in ms {
+                        c.push(m);
+                    }
+                    return self.expand_all(c, depth, out, fuel - 1);
+                }
+                RuntypeKind::Ref(n) => {
+                    let mut c = conj.clone();
+                    c[i] = lookup(self.defs, n)?;
+                    return self.expand_all(c, depth, out, fuel - 1);
+                }
+                _ => {}
+            }
+        }
+        out.push(conj);
+        Ok(())
+    }
+
+    fn product(&mut self, dims: Vec<Vec<Value>>) -> Vec<Vec<Value>> {
+        let mut acc: Vec<Vec<Value>> = vec![vec![]];
+        for d in dims {
+            let mut next = vec![];
+            'outer: for a in &acc {
+                for x in &d {
+                    let mut b = a.clone();
+                    b.push(x.clone());
+                    next.push(b);
+                    if next.len() > self.cap {
+                        self.truncated = true;
+                        break 'outer;
+                    }
+                }
+            }
+            acc = next;
+        }
+        acc
+    }
+
+    fn atom_values(&mut self, atoms: &[&'a Runtype], depth: usize) -> R<Vec<Value>> {
+        if atoms.is_empty() {
+            return unsup("unconstrained-position");
+        }
+        let first = atoms[0];
+        let all_obj = atoms.iter().all(|a| matches!(a.kind, RuntypeKind::Object { .. }));
+        let all_list = atoms.iter().all(|a| matches!(a.kind, RuntypeKind::Array(_) | RuntypeKind::Tuple { .. } | RuntypeKind::AnyArrayLike));
+        if all_obj {
+            if depth == 0 {
+                self.truncated = true;
+                return Ok(vec![]);
+            }
+            let mut keys: BTreeSet<String> = BTreeSet::new();
+            for a in atoms {
+                keys.extend(explicit_keys(a, self.defs)?);
+            }
+            // keys an index signature could admit: the mentioned ones and `fresh` new ones
+            let has_open_index = atoms.iter().any(|a| matches!(&a.kind, RuntypeKind::Object { indexed_properties: Some(ip), .. } if matches!(finite_keys(&ip.key, self.defs), Ok(None))));
+            let mut extra: Vec<String> = vec![];
+            if has_open_index {
+                for k in &self.lits.keys {
+                    if !keys.contains(k) {
+                        extra.push(k.clone());
+                    }
+                }
+                for i in 0..self.fresh {
+                    extra.push(format!("\u{1}k{}", i));
+                }
+            }
+            let mut names: Vec<String> = vec![];
+            let mut dims: Vec<Vec<Value>> = vec![];
+            for k in keys.iter().chain(extra.iter()) {
+                let mut tys: Vec<&'a Runtype> = vec![];
+                let mut required = false;
+                for a in atoms {
+                    if let Some((ty, optional)) = declared(a, self.defs, k)? {
+                        tys.push(ty);
+                        if !optional {
+                            required = true;
+                        }
+                    }
+                }
+                if tys.is_empty() {
+                    continue;
+                }
+                let mut cands = self.values(tys.clone(), depth - 1)?;
+                if !required {
+                    cands.insert(0, Value::Absent);
+                } else {
+                    let mut admits_absent = true;
+                    for ty in &tys {
+                        if !rt_open(ty, self.defs, &Value::Absent)? {
+                            admits_absent = false;
+                        }
+                    }
+                    if admits_absent {
+                        cands.insert(0, Value::Absent);
+                    }
+                }
+                if cands.is_empty() {
+                    return Ok(vec![]); // a required property without values: no object at all
+                }
+                names.push(k.clone());
+                dims.push(cands);
+            }
+            let rows = self.product(dims);
+            let mut out = vec![];
+            for row in rows {
+                let mut o = BTreeMap::new();
+                for (k, v) in names.iter().zip(row) {
+                    if v != Value::Absent {
+                        o.insert(k.clone(), v);
+                    }
+                }
+                out.push(Value::Obj(o));
+            }
+            self.produced += out.len();
+            return Ok(out);
+        }
+        if all_list {
+            if depth == 0 {
+                self.truncated = true;
+                return Ok(vec![]);
+            }
+            let mut min_len = 0;
+            let mut max_len: Option<usize> = None;
+            for a in atoms {
+                if let RuntypeKind::Tuple { prefix_items, items } = &a.kind {
+                    min_len = min_len.max(prefix_items.len());
+                    if items.is_none() {
+                        max_len = Some(max_len.map(|m| m.min(prefix_items.len())).unwrap_or(prefix_items.len()));
+                    }
+                }
+            }
+            let hi = max_len.unwrap_or(min_len.max(self.lits.max_prefix) + self.fresh);
+            let mut out = vec![];
+            for len in min_len..=hi {
+                if let Some(m) = max_len
+                    && len > m
+                {
+                    break;
+                }
+                let mut dims = vec![];
+                let mut dead = false;
+                for i in 0..len {
+                    let tys: Vec<&'a Runtype> = atoms.iter().map(|at| elem_type(at, i).unwrap_or(any_ref())).collect();
+                    if tys.iter().all(|t| matches!(t.kind, RuntypeKind::Any)) {
+                        return unsup("unconstrained-position");
+                    }
+                    let tys: Vec<&'a Runtype> = tys.into_iter().filter(|t| !matches!(t.kind, RuntypeKind::Any)).collect();
+                    let c = self.values(tys, depth - 1)?;
+                    if c.is_empty() {
+                        dead = true;
+                        break;
+                    }
+                    dims.push(c);
+                }
+                if dead {
+                    continue;
+                }
+                for row in self.product(dims) {
+                    out.push(Value::Arr(row));
+                }
+                if out.len() > self.cap {
+                    self.truncated = true;
+                    break;
+                }
+            }
+            self.produced += out.len();
+            return Ok(out);
+        }
+        // primitives: candidates of the first atom, filtered by the others
+        let cands: Vec<Value> = match &first.kind {
+            RuntypeKind::Null => vec![Value::Null],
+            RuntypeKind::Boolean => vec![Value::Bool(true), Value::Bool(false)],
+            RuntypeKind::Const(RuntypeConst::Bool(b)) => vec![Value::Bool(*b)],
+            RuntypeKind::Const(RuntypeConst::Number(n)) => vec![Value::Num(n.to_f64() as i64)],
+            RuntypeKind::Number => self.lits.nums.iter().map(|n| Value::Num(*n)).chain(std::iter::once(Value::Num(FRESH_NUM))).collect(),
+            RuntypeKind::String => self.lits.strs.iter().map(|s| Value::Str(s.clone())).chain(std::iter::once(Value::Str(FRESH_STR.to_string()))).collect(),
+            RuntypeKind::TplLitType(t) => match single_const(t) {
+                Some(s) => vec![Value::Str(s.to_string())],
+                None => return unsup("template"),
+            },
+            RuntypeKind::Never => vec![],
+            RuntypeKind::Object { .. } | RuntypeKind::Array(_) | RuntypeKind::Tuple { .. } | RuntypeKind::AnyArrayLike => vec![], // mixed with a different kind: empty
+            RuntypeKind::Undefined | RuntypeKind::Void => vec![Value::Absent],
+            other => return unsup(&format!("enumerate:{}", kind_name(other))),
+        };
+        let mut out = vec![];
+        for c in cands {
+            let mut ok = true;
+            for a in &atoms[1..] {
+                if !rt_open(a, self.defs, &c)? {
+                    ok = false;
+                    break;
+                }
+            }
+            if ok {
+                out.push(c);
+            }
+        }
+        self.produced += out.len();
+        Ok(out)
+    }
+}
+
+// ------------------------------------------------------------------------------------------------
+// Membership in a SemType, read from the engine's tables (Open reading of atoms)
+
+pub fn st_member(t: &SemType, ctx: &SemTypeContext, v: &Value) -> R<bool> {
+    let tag = match v {
+        Value::Absent => SubTypeTag::OptionalProp,
+        Value::Null => SubTypeTag::Null,
+        Value::Bool(_) => SubTypeTag::Boolean,
+        Value::Num(_) => SubTypeTag::Number,
+        Value::Str(_) => SubTypeTag::String,
+        Value::Arr(_) => SubTypeTag::List,
+        Value::Obj(_) => SubTypeTag::Mapping,
+        Value::Tag(bit) => {
+            return Ok((t.all & bit) != 0);
+        }
+    };
+    if (t.all & tag.code()) != 0 {
+        return Ok(true);
+    }
+    for s in &t.subtype_data {
+        match (s.as_ref(), v) {
+            (ProperSubtype::Boolean(b), Value::Bool(x)) => return Ok(b == x),
+            (ProperSubtype::Number { allowed, values }, Value::Num(x)) => {
+                let mut found = false;
+                for val in values {
+                    match val {
+                        NumberRepresentationOrFormat::Lit(n) => {
+                            if *n == N::parse_int(*x) {
+                                found = true;
+                            }
+                        }
+                        NumberRepresentationOrFormat::Format(_) => return unsup("number-format"),
+                    }
+                }
+                return Ok(found == *allowed);
+            }
+            (ProperSubtype::String { allowed, values }, Value::Str(x)) => {
+                let mut found = false;
+                for val in values {
+                    match val {
+                        StringLitOrFormat::Tpl(tpl) => match single_const(tpl) {
+                            Some(s) => {
+                                if s == x {
+                                    found = true;
+                                }
+                            }
+                            None => return unsup("template"),
+                        },
+                        StringLitOrFormat::Format(_) => return unsup("string-format"),
+                    }
+                }
+                return Ok(found == *allowed);
+            }
+            (ProperSubtype::Mapping(bdd), Value::Obj(_)) => return eval_bdd(bdd, ctx, v),
+            (ProperSubtype::List(bdd), Value::Arr(_)) => return eval_bdd(bdd, ctx, v),
+            (ProperSubtype::VoidUndefined { allowed, values }, Value::Absent) => {
+                // `undefined` materialises "nothing here": read on the Absent pseudo value
+                let has = values.contains(&VoidUndefinedSubtype::Undefined) || values.contains(&VoidUndefinedSubtype::Void);
+                if has == *allowed {
+                    return Ok(true);
+                }
+            }
+            _ => {}
+        }
+    }
+    Ok(false)
+}
+
+pub fn eval_bdd(b: &Rc<Bdd>, ctx: &SemTypeContext, v: &Value) -> R<bool> {
+    match b.as_ref() {
+        Bdd::True => Ok(true),
+        Bdd::False => Ok(false),
+        Bdd::Node { atom, left, middle, right } => {
+            if eval_bdd(middle, ctx, v)? {
+                return Ok(true);
+            }
+            if atom_member(atom, ctx, v)? { eval_bdd(left, ctx, v) } else { eval_bdd(right, ctx, v) }
+        }
+    }
+}
+
+pub fn st_finite_keys(k: &SemType) -> R<Option<Vec<String>>> {
+    if (k.all & SubTypeTag::String.code()) != 0 {
+        return Ok(None);
+    }
+    let mut out = vec![];
+    for s in &k.subtype_data {
+        if let ProperSubtype::String { allowed, values } = s.as_ref() {
+            if !allowed {
+                return Ok(None);
+            }
+            for val in values {
+                match val {
+                    StringLitOrFormat::Tpl(tpl) => match single_const(tpl) {
+                        Some(s) => out.push(s.to_string()),
+                        None => return unsup("template"),
+                    },
+                    StringLitOrFormat::Format(_) => return Ok(None),
+                }
+            }
+        }
+    }
+    Ok(Some(out))
+}
+
+pub fn mapping_atom_member(m: &MappingAtomicType, ctx: &SemTypeContext, v: &Value) -> R<bool> {
+    let o = match v {
+        Value::Obj(o) => o,
+        _ => return Ok(false),
+    };
+    for (k, ty) in &m.vs {
+        if !st_member(ty, ctx, o.get(k).unwrap_or(&Value::Absent))? {
+            return Ok(false);
+        }
+    }
+    if let Some(ip) = &m.indexed_properties {
+        match st_finite_keys(&ip.key)? {
+            Some(keys) => {
+                for k in keys {
+                    if m.vs.contains_key(&k) {
+                        continue;
+                    }
+                    if !st_member(&ip.value, ctx, o.get(&k).unwrap_or(&Value::Absent))? {
+                        return Ok(false);
+                    }
+                }
+            }
+            None => {
+                for (k, val) in o {
+                    if m.vs.contains_key(k) {
+                        continue;
+                    }
+                    if st_member(&ip.key, ctx, &Value::Str(k.clone()))? && !st_member(&ip.value, ctx, val)? {
+                        return Ok(false);
+                    }
+                }
+            }
+        }
+    }
+    Ok(true)
+}
+
+pub fn list_atom_member(l: &ListAtomic, ctx: &SemTypeContext, v: &Value) -> R<bool> {
+    let a = match v {
+        Value::Arr(a) => a,
+        _ => return Ok(false),
+    };
+    if a.len() < l.prefix_items.len() {
+        return Ok(false);
+    }
+    for (i, x) in a.iter().enumerate() {
+        let ty = if i < l.prefix_items.len() { &l.prefix_items[i] } else { &l.items };
+        if !st_member(ty, ctx, x)? {
+            return Ok(false);
+        }
+    }
+    Ok(true)
+}
+
+pub fn atom_member(atom: &Atom, ctx: &SemTypeContext, v: &Value) -> R<bool> {
+    match atom {
+        Atom::Mapping(i) => match ctx.mapping_definitions.get(*i) {
+            Some(Some(m)) => mapping_atom_member(m, ctx, v),
+            _ => unsup("dangling-mapping-atom"),
+        },
+        Atom::List(i) => match ctx.list_definitions.get(*i) {
+            Some(Some(l)) => list_atom_member(l, ctx, v),
+            _ => unsup("dangling-list-atom"),
+        },
+        _ => unsup("map/set-atom"),
+    }
+}
+
+/// one-step variations of a value (for values outside a type)
+pub fn mutants(v: &Value, lits: &Lits, out: &mut Vec<Value>, budget: usize) {
+    if out.len() >= budget {
+        return;
+    }
+    let leafs = |out: &mut Vec<Value>| {
+        out.push(Value::Null);
+        out.push(Value::Bool(true));
+        out.push(Value::Num(FRESH_NUM));
+        out.push(Value::Str(FRESH_STR.to_string()));
+        for n in lits.nums.iter().take(3) {
+            out.push(Value::Num(*n));
+        }
+        for s in lits.strs.iter().take(3) {
+            out.push(Value::Str(s.clone()));
+        }
+    };
+    match v {
+        Value::Arr(a) => {
+            let mut shorter = a.clone();
+            if shorter.pop().is_some() {
+                out.push(Value::Arr(shorter));
+            }
+            let mut longer = a.clone();
+            longer.push(Value::Num(FRESH_NUM));
+            out.push(Value::Arr(longer));
+            let mut longer = a.clone();
+            longer.push(Value::Null);
+            out.push(Value::Arr(longer));
+            for i in 0..a.len().min(3) {
+                let mut inner = vec![];
+                mutants(&a[i], lits, &mut inner, 6);
+                for m in inner {
+                    if m == Value::Absent {
+                        continue;
+                    }
+                    let mut b = a.clone();
+                    b[i] = m;
+                    out.push(Value::Arr(b));
+                }
+            }
+            out.push(Value::Obj(BTreeMap::new()));
+        }
+        Value::Obj(o) => {
+            for k in o.keys() {
+                let mut p = o.clone();
+                p.remove(k);
+                out.push(Value::Obj(p));
+            }
+            for k in lits.keys.iter().take(4).cloned().chain(std::iter::once("\u{1}x".to_string())) {
+                if !o.contains_key(&k) {
+                    for val in [Value::Num(FRESH_NUM), Value::Str(FRESH_STR.to_string()), Value::Null] {
+                        let mut p = o.clone();
+                        p.insert(k.clone(), val);
+                        out.push(Value::Obj(p));
+                    }
+                }
+            }
+            for (k, val) in o.iter().take(3) {
+                let mut inner = vec![];
+                mutants(val, lits, &mut inner, 6);
+                for m in inner {
+                    let mut p = o.clone();
+                    if m == Value::Absent {
+                        p.remove(k);
+                    } else {
+                        p.insert(k.clone(), m);
+                    }
+                    out.push(Value::Obj(p));
+                }
+            }
+            out.push(Value::Arr(vec![]));
+        }
+        _ => {
+            leafs(out);
+            out.push(Value::Arr(vec![]));
+            out.push(Value::Obj(BTreeMap::new()));
+        }
+    }
+}
